@@ -25,7 +25,7 @@ NOT_DECIDED = ['which texts the traceback regex accepts beyond its shape', 'mess
 
 
 def run(ctx):
-    for fn in (r1_exec_handler, r2_check_exception, r3_detail_stripping, r4_continuation, r5_regex_shape, r6_strip_details_bounds, r7_run_state_is_forwarded):
+    for fn in (r1_exec_handler, r1b_acceptance_depends_on_the_want_only, r2_check_exception, r3_detail_stripping, r4_continuation, r5_regex_shape, r6_strip_details_bounds, r7_run_state_is_forwarded):
         ctx.rep.rule(fn, ctx)
 
 
@@ -88,6 +88,48 @@ def r1_exec_handler(ctx):
         rep.ob('C03.R1', ctx.loc(rr.f, h.ast), 'bare raise inside the exec handler', bool(leaving),
                '%d bare re-raise statement(s) in the handler' % len(leaving) if leaving else 'handler has no bare re-raise: a raising part without want cannot fail with its own exception',
                nontrivial=False, anchor=RUN)
+
+
+def r1b_acceptance_depends_on_the_want_only(ctx):
+    """inside the handler of the exec sites the exception checker is consulted whenever the part has a want -- under no further condition (a raising
+    part whose traceback want matches is accepted whatever other directives are active) -- and what it is given is the LAST line of
+    traceback.format_exception_only, the `Type: message` line (for a SyntaxError the earlier lines are the file / source / caret display)"""
+    rr = run_roles(ctx)
+    rep = ctx.rep
+    hs = exec_handlers(rr)
+    n = 0
+    for h in hs:
+        body = _handler_body_ids(rr.g, h)
+        dom = ctx.dom(rr.g, h, tag='handler')
+        for (cn, c) in rr.check_exc_sites:
+            if id(cn) not in body:
+                continue
+            n += 1
+            facts = [fa for fa in graph.guard_facts(dom, cn) if fa.polarity in (True, False) and isinstance(fa.expr, ast.AST)]
+            extra = [fa for fa in facts if not (fa.polarity is True and isinstance(fa.expr, ast.Attribute) and fa.expr.attr == 'want')]
+            has_want = any(fa.polarity is True and isinstance(fa.expr, ast.Attribute) and fa.expr.attr == 'want' for fa in facts)
+            unknown = [fa for fa in extra if not any(isinstance(x, ast.Name) and x.id in ('runstate', 'self', 'on_error', 'verbose') for x in ast.walk(fa.expr))]
+            need(not unknown, 'C03.R1b: the exception checker is consulted under a condition that was not recognised: %s' % fmt_facts(unknown))
+            ok = has_want and not extra
+            rep.ob('C03.R1b', ctx.loc(rr.f, c), ctx.src(c, 80), ok,
+                   'consulted exactly when the part has a want' if ok else
+                   'the expected-exception check also depends on %s: while that holds, a raising part whose traceback want matches is re-raised and the doctest fails' % fmt_facts(extra), anchor=RUN)
+            # the text handed to the checker
+            a0 = c.args[0] if c.args else None
+            src = a0
+            if isinstance(a0, ast.Name):
+                ds = rr.rd.at(cn, a0.id)
+                src = ds[0].value if len(ds) == 1 and isinstance(ds[0].value, ast.AST) else None
+            need(isinstance(src, ast.Subscript) and isinstance(src.value, ast.Call) and ast.unparse(src.value.func).endswith('format_exception_only'),
+                 'C03.R1b: the raised text handed to check_exception is not an item of traceback.format_exception_only(...)')
+            idx = src.slice
+            last = isinstance(idx, ast.UnaryOp) and isinstance(idx.op, ast.USub) and isinstance(idx.operand, ast.Constant) and idx.operand.value == 1
+            need(last or isinstance(idx, ast.Constant), 'C03.R1b: index of the format_exception_only item is not a constant')
+            rep.ob('C03.R1b', ctx.loc(rr.f, src), ctx.src(src, 80), last,
+                   'the `Type: message` line (always the last item)' if last else
+                   'item %s of format_exception_only is compared with the want: for SyntaxError / IndentationError the list starts with the `File "...", line N` display, '
+                   'so a correct traceback want fails and a want that ends in that display line hides the error' % ctx.src(idx), anchor=RUN)
+    rep.floor('C03.R1b', 'exception checks inside the exec handler', n, 1)
 
 
 def r2_check_exception(ctx):
@@ -263,6 +305,7 @@ def r5_regex_shape(ctx):
     items = rx.items
     # hdr: preceded by a line-start anchor and starting with the literal "Traceback ("
     hdr_ok = msg_ok = False
+    stack_lazy = None
     for i, it in enumerate(items):
         sp = consts.subpattern(it)
         if sp is None:
@@ -272,6 +315,10 @@ def r5_regex_shape(ctx):
         at_line_start = prev is not None and consts.is_at(prev, consts.AT_BEGINNING, consts.AT_BEGINNING_LINE)
         if num == rx.groups.get('hdr'):
             hdr_ok = at_line_start and consts.literal_prefix(inner).startswith('Traceback (')
+        if num == rx.groups.get('stack'):
+            # the stack group must be LAZY: the message starts at the first un-indented line after the header, not at the last one
+            rp = consts.repeat_of(inner[0]) if len(inner) == 1 else None
+            stack_lazy = rp is not None and rp[3] == consts.sre_c.MIN_REPEAT
         if num == rx.groups.get('msg'):
             first = inner[0] if inner else None
             rp = consts.repeat_of(first) if first else None
@@ -280,6 +327,11 @@ def r5_regex_shape(ctx):
                 msg_ok = at_line_start and cs is not None and ord('A') in cs and ord(' ') not in cs
     rep.ob('C03.R5', where, 'hdr group', hdr_ok, 'header anchored at a line start and opening with the literal "Traceback ("' if hdr_ok else
            'a want that is not a traceback block can match the header group', anchor='xdoctest.checker._EXCEPTION_RE')
+    need(stack_lazy is not None, 'C03.R5: the stack group of _EXCEPTION_RE is not a single repeat')
+    rep.ob('C03.R5', where, 'stack group is lazy', stack_lazy,
+           'the stack is absorbed only up to the FIRST line that starts with a word character: the message keeps all its lines' if stack_lazy else
+           'the stack group is greedy: with a message of several un-indented lines the wanted message starts at the LAST such line, so exact multi-line wants fail '
+           'and a different exception whose text equals that last line is accepted', anchor='xdoctest.checker._EXCEPTION_RE')
     rep.ob('C03.R5', where, 'msg group', msg_ok, 'message group anchored at a line start and opening with word characters' if msg_ok else
            'the message group is no longer anchored at an un-indented line', anchor='xdoctest.checker._EXCEPTION_RE')
     # extract_exc_want returns the msg group of a search with this regex, None otherwise
@@ -483,6 +535,9 @@ from ..selftest import fire, silent      # noqa: E402
 DE = 'xdoctest/doctest_example.py'
 CK = 'xdoctest/checker.py'
 VARIANTS = [
+    fire('expected-exception-ignored-under-ignore-want', 'C03.R1b', (DE, "                    except Exception:\n                        if part.want:\n", "                    except Exception:\n                        if part.want and not runstate['IGNORE_WANT']:\n")),
+    fire('first-line-of-exception-display-compared', 'C03.R1b', (DE, "exc_got = traceback.format_exception_only(*exception[:2])[-1]", "exc_got = traceback.format_exception_only(*exception[:2])[0]")),
+    fire('traceback-stack-group-greedy', 'C03.R5', (CK, "    (?P<stack> .*?)      # don't blink", "    (?P<stack> .*)       # don't blink")),
     fire('last-dot-searched-in-whole-line', 'C03.R6', (CK, "    i = msg.rfind('.', 0, end)\n", "    i = msg.rfind('.', 0, len(msg))\n")),
     fire('return-true-on-non-traceback-want', 'C03.R2a',
          (CK, "        # Reraise the error if the want message is formatted like an exception\n        raise\n",
